@@ -3,6 +3,7 @@ import Driver.Packed
 import Driver.Gen
 import Driver.Read
 import Driver.Frame
+import Driver.Text
 /-! `modeld`: one operation per line on stdin, one canonical result per line on stdout. -/
 open Driver
 
@@ -12,6 +13,7 @@ def dispatch (line : String) : String :=
   | "gen" :: rest => Driver.Gen.run rest
   | "read" :: rest => Driver.Read.run rest
   | "frame" :: rest => Driver.Frame.run rest
+  | "text" :: rest => Driver.Text.run rest
   | "build" :: rest => Driver.Read.runBuild rest
   | ["case", _] => "case"
   | _ => "bad-op"
